@@ -70,6 +70,11 @@ Step ==
             /\ last' = Empty /\ old' = e.read /\ new' = e.read /\ crashed' = FALSE /\ saved' = FALSE
             /\ sent' = Empty
             /\ UNCHANGED scen
+       [] e.ev = "E2E" ->
+            \* real SourceControl + real RunClientUpdater: after the updater's delayed save the file holds, for every
+            \* persistent topic looked at, the last value clients were told (topics = <<topic, published, saved>>)
+            /\ Report(l, Iff(Len(e.topics) = 0 \/ \E i \in 1..Len(e.topics) : e.topics[i][2] # e.topics[i][3], "C16_saved"), e.scen)
+            /\ UNCHANGED <<scen, last, old, new, crashed, sent, saved>>
        [] e.ev = "End" -> UNCHANGED <<scen, last, old, new, crashed, sent, saved>>
 
 Next == Step
